@@ -11,7 +11,7 @@
 
    The action chain is [A0: filter, A1: join-like]: an event's class decides what each action
    returns (P pass, D discard at A0, B break at A0, H hold at A1, C collapse into a held run at A1,
-   R refused at admission, S split at A0: Spawn produces KidsPer child events that run through A1 and to the output
+   R refused at admission, N not matched by A1's selector: A1 is skipped unless it is busy with a run, S split at A0: Spawn produces KidsPer child events that run through A1 and to the output
    inside the parent's Do call, then the parent breaks out and follows them to the output as a child-parent event,
    which no send function sees and whose Commit is the one the input is notified of).  Mechanism switches M_* (all TRUE = the code as it is) let TLC produce
    the shortest schedule that distinguishes an implementation with the mechanism from one without;
@@ -33,6 +33,7 @@ CONSTANTS
   M_RetryHolds,            \* nothing is committed while the retry loop is pending
   M_DQEmptiesBatch,        \* after the dead-queue hand-over the main batch is emptied
   M_CommitMax,             \* stream.commit keeps the maximum
+  M_BusyTakesAll,          \* an action that holds a run receives EVERY event of the stream, also one its selector does not match
   M_TimerFlushesAny        \* the batch heartbeat seals ANY non-empty open batch, also one that holds only split parents
 
 Procs == 1..NProcs
@@ -244,9 +245,13 @@ DoAct(p) ==
                         [] OTHER -> "pass")
          notify == ~M_NoNotifyOnDiscard
      IN /\ sched' = IF e = 0 THEN sched ELSE Append(sched, <<"do", e, a>>)
-        /\ CASE res = "pass" /\ a = 0 ->
+        /\ CASE res = "pass" /\ a = 0 /\ ~(cls = "N" /\ (~pr[p].busy \/ ~M_BusyTakesAll)) ->
                   /\ pr' = [pr EXCEPT ![p].act = 1]
                   /\ UNCHANGED <<st, charged, inUse, obs>>
+             [] res = "pass" /\ a = 0 /\ cls = "N" /\ (~pr[p].busy \/ ~M_BusyTakesAll) ->   \* doActions: !busy && !isMatch -> next action
+                  /\ pr' = [pr EXCEPT ![p].pc = "out"]
+                  /\ obs' = ODo(obs, e, "pass")
+                  /\ UNCHANGED <<st, charged, inUse>>
              [] res = "spawn" ->                                               \* processor.Spawn: the first child enters A1
                   /\ pr' = [pr EXCEPT ![p] = [@ EXCEPT !.kid = 1, !.act = 1]]
                   /\ obs' = OSpawn(obs, e, Kids(e))
@@ -278,8 +283,11 @@ Out(p) ==
   /\ obs' = OAdd(obs, "main", Cur(p))
   /\ pr' = [pr EXCEPT ![p] =
               IF pr[p].kid = 0
-                THEN \* processSequence: with a busy action the processor goes on with blockGet, otherwise instantGet
-                     [@ EXCEPT !.pc = IF pr[p].busy THEN "blockget" ELSE "get", !.ev = 0]
+                THEN \* processSequence: after an event that went to the output the processor goes on with instantGet (dischargeStream),
+                     \* whether or not an action is busy.  An event can only pass while an action stays busy by leaving the chain BEFORE
+                     \* it (ActionBreak); in file.d only split does that, and processor.Spawn ends by sending a time-out event to every
+                     \* busy action, so none is busy then.  Class B (a bare break) is therefore never combined with H/C in the configs.
+                     [@ EXCEPT !.pc = "get", !.ev = 0]
               ELSE IF pr[p].kid < KidsPer THEN [@ EXCEPT !.pc = "act", !.act = 1, !.kid = @ + 1]     \* next child
               ELSE [@ EXCEPT !.pc = "spawned", !.kid = 0]]
   /\ UNCHANGED <<lines, rd, inUse, st, seqOf, charged, wk, nfail, sched>>
